@@ -84,6 +84,9 @@ type Param struct {
 	// dig.In carries ignore-unexported:"true". A legal encoding of the same
 	// parameters.
 	Hidden int `json:"hidden,omitempty"`
+	// Embed: this object is an anonymous (embedded) field of the enclosing
+	// parameter object instead of a named one.
+	Embed bool `json:"embed,omitempty"`
 }
 
 type RKind int
@@ -353,6 +356,9 @@ func (p Param) String() string {
 	}
 	if p.Hidden > 0 {
 		return "In(+unexported){" + strings.Join(parts, "; ") + "}"
+	}
+	if p.Embed {
+		return "embedded In{" + strings.Join(parts, "; ") + "}"
 	}
 	return "In{" + strings.Join(parts, "; ") + "}"
 }
